@@ -24,7 +24,7 @@ CHUNK = 1
 
 
 def n_runs(tier: str) -> int:
-    return 24 if tier == "quick" else 400
+    return 32 if tier == "quick" else 400
 
 
 def prepare(params: dict):
@@ -69,6 +69,8 @@ def gen_history(ch: Choices, known: dict):
             kinds = ["find_all", "find_all", "new_solver", "optimize", "split_solve", "register", "example", "use_custom"]
             if live:
                 kinds += ["take", "take", "take", "abandon"]
+            if ops and ops[-1]["kind"] == "register":
+                kinds += ["use_custom"] * 6  # a registration is usually followed by a use
             kind = kinds[ch.choose(len(kinds), "kind")]
             m = ch.choose(nm, "model")
             cfg = gen.gen_config(ch, models[m]) if ch.chance(1, 2, "cfg.random") else dict(gen.DEFAULT_CONFIG)
@@ -94,11 +96,11 @@ def gen_history(ch: Choices, known: dict):
                             "var": ch.choose(len(models[m]["idx"]), "var")})
                 used_models.add(m)
             elif kind == "register":
-                what = ["propagator", "dom_heuristic", "var_heuristic", "consistency"][ch.choose(4, "what")]
+                what = ["propagator", "propagator", "dom_heuristic", "var_heuristic", "consistency"][ch.choose(5, "what")]
                 ops.append({"kind": kind, "what": what})
                 registered.add(what)
             elif kind == "use_custom":
-                ops.append({"kind": kind, "w": 1 + ch.choose(3, "w")})
+                ops.append({"kind": kind, "w": 1 + ch.choose(3, "w"), "with_heuristics": ch.chance(1, 2, "with_heuristics")})
             elif kind == "example":
                 name = ["queens", "magic_sequence", "golomb"][ch.choose(3, "name")]
                 ops.append({"kind": kind, "name": name, "n": {"queens": 4 + ch.choose(3, "n"), "magic_sequence": 4 + ch.choose(4, "n"), "golomb": 4 + ch.choose(2, "n")}[name]})
